@@ -200,7 +200,7 @@ def parseSeqPath (s : String) : Option SeqPath :=
 
 /-- `runSeq` with the answers as the protocol prints them: the state machine of `Model.OverloadSeq` decides what each
     call sees and whether an instance is built (`runSeq`); the text of a verdict is `callString` on that visible list -/
-def seqStrings (p : SeqPath) (st : SeqState) : List SeqItem → List String
+def seqStrings (p : SeqPath) (structHelpers : List Nat) (st : SeqState) : List SeqItem → List String
   | [] => []
   | i :: is =>
     let (st', o) := seqStep p st i
@@ -215,12 +215,20 @@ def seqStrings (p : SeqPath) (st : SeqState) : List SeqItem → List String
          | some (m, a) => (match st.visible p m with | some v => callString v [] a | none => "model-internal-mismatch")
          | none => "model-internal-mismatch"]
       | some (.verdict _), _ => ["model-internal-mismatch"]
-    here ++ seqStrings p st' is
+    -- a call refused inside a method body of a struct template is reported at the use of the template, without the reason
+    let here := match i with
+      | .trigger j _ =>
+        if structHelpers.contains j then here.map fun s => if s.startsWith "sel " || s == "=" || s.startsWith "unsupported" then s else "rej"
+        else here
+      | _ => here
+    here ++ seqStrings p structHelpers st' is
 
 def handleSeq (body opts : String) : String :=
   match sequenceOpt ((body.splitOn "|").map parseItem), parseSeqPath opts with
   | some items, some p =>
-    let out := seqStrings p (SeqState.init p items) items
+    let structHelpers := (body.splitOn "|").filterMap fun s =>
+      match s.splitOn "~" with | ["s", j, _, _] => j.toNat? | _ => none
+    let out := seqStrings p structHelpers (SeqState.init p items) items
     -- as many answers as `runSeq` has observations
     if out.length != (runSeq p items).length then "model-internal-mismatch"
     else match out.find? (·.startsWith "unsupported") with
